@@ -354,7 +354,26 @@ func (g *Gen) CharsetLines() []*Node {
 				"x"+x, keep(ObjN(x, IntN(1)))))
 		out = append(out, line)
 	}
+	// strings whose CONTENT looks like syntax (server messages quote shell-syntax documents, index
+	// bounds, numbers in other notations): inside a JSON string all of it is just text
+	for _, x := range SyntaxLookalikes {
+		out = append(out, ObjN("t", ObjN("$date", StrN(g.ISODate())), "s", StrN("E"), "c", StrN("STORAGE"), "id", IntN(20475), "ctx", StrN("conn7"), "msg", StrN("Write failed: "+x),
+			"attr", ObjN("errMsg", StrN(x), "bounds", ArrN(StrN(x), StrN("["+x+"]")), "k: "+x, StrN("v"))).With(&Tag{Role: Keep}))
+		line := ObjN("t", keep(ObjN("$date", StrN(g.ISODate()))), "s", KeepS("I"), "c", KeepS("COMMAND"), "id", KeepI(51803), "ctx", KeepS("conn8"), "msg", KeepS("Slow query"),
+			"attr", ObjN("type", KeepS("command"), "ns", StrN("db1.c").With(&Tag{Role: NsFull}), "appName", KeepS(x),
+				"command", ObjN("find", StrN("c").With(&Tag{Role: NsColl}), "filter", ObjN("f", sens(StrN(g.Token()), "str", "lookalike-filter")), "comment", KeepS(x), "$db", StrN("db1").With(&Tag{Role: NsDB})),
+				"errMsg", KeepS("E11000 duplicate key error collection: db1.c index: score_1 dup key: "+x), "planningBounds", keep(ObjN("score", ArrN(StrN(x))))))
+		out = append(out, line)
+	}
 	return out
+}
+
+// SyntaxLookalikes are string CONTENTS that resemble JSON / shell syntax.
+var SyntaxLookalikes = []string{
+	`{ score: NaN }`, `[-Infinity, Infinity]`, `{ a: Infinity, b: -Infinity }`, `"x": NaN,`, `: NaN}`, `[NaN]`, `{ : null }`, `{ _id: null }`, `: true, : false`,
+	`{"a": NaN, "b": -Infinity}`, `{"$date":"2020-01-01T00:00:00Z"}`, `{"$oid":"5f1e5e2d2c3b4a0001a2b3c4"}`, `\u0000 \n \"`, `"quoted "inner" text"`, `// comment /* x */ # y`,
+	`1e400 0x1F 01 +1 .5 1. -0`, `ObjectId('5f1e5e2d2c3b4a0001a2b3c4')`, `ISODate("2020-01-01T00:00:00Z")`, `NumberLong(42)`, `undefined`, `{}`, `[]`, `}{`, `,`, `:`, `null`, `true`, `0`,
+	`REDACTED`, `redacted@redacted.com`, `000000000000000000000000`, `1970-01-01T00:00:00.000Z`, `255.255.255.255:65535`, `$field`, `$$ROOT`,
 }
 
 // Soup returns an arbitrary JSON tree (no planted secrets) to test that the
